@@ -365,6 +365,20 @@ pub fn run_case(case: &J, workdir: &str, out: &mut dyn Write, n: usize) {
             ev["c"] = json!(c);
             ev["line"] = json!(line);
             ev["r"] = r;
+        } else if let Some(hexs) = st.get("rawhex").and_then(|l| l.as_str()) {
+            // raw bytes on a socket (TCP: as they are; WebSocket: one frame of the given opcode)
+            let c = st["c"].as_str().unwrap_or("c1");
+            let bytes: Vec<u8> = (0..hexs.len() / 2).map(|j| u8::from_str_radix(&hexs[2 * j..2 * j + 2], 16).unwrap_or(0)).collect();
+            let opcode = st["opcode"].as_u64().unwrap_or(2) as u8;
+            let fin = st["fin"].as_bool().unwrap_or(true);
+            ev["ev"] = json!("cmd");
+            ev["c"] = json!(c);
+            ev["line"] = json!(format!("<raw {} bytes opcode {}>", bytes.len(), opcode));
+            ev["r"] = node.raw(c, opcode, fin, &bytes);
+            if st["drop"].as_bool() == Some(true) {
+                // the client goes away without a close frame / half-close
+                node.forget(c);
+            }
         } else if let Some(d) = st.get("direct_set") {
             ev["ev"] = json!("cmd");
             ev["c"] = json!(st["c"].as_str().unwrap_or("c1"));
@@ -445,7 +459,10 @@ pub fn run_case(case: &J, workdir: &str, out: &mut dyn Write, n: usize) {
             ev["pre_inbox"] = J::Object(pre);
             ev["ev"] = json!("close");
             ev["c"] = json!(c);
-            ev["r"] = node.close(c);
+            ev["r"] = match st.get("how").and_then(|h| h.as_str()) {
+                Some(h) if h != "clean" => node.close_abrupt(c, h),
+                _ => node.close(c),
+            };
         } else if st.get("restart").is_some() {
             ev["ev"] = json!("restart");
             let role_now = node.dbs.get_role();
